@@ -286,17 +286,30 @@ theorem C11_f64_big_integer_refused (neg : Bool) (hd ip : Bytes) (hh : IsF64Head
 -- 2^53 = 9007199254740992 is refused although binary64 holds it: the guard is `> 2^53 - 1`
 example : toF64 [57,48,48,55,49,57,57,50,53,52,55,52,48,57,57,50] = .error .precisionLoss := by rfl
 
+/-- **never NaN or infinity**: the exponent field of every result of `to_f64` is at most
+1088 (|value| < 2^66), so it is never 2047.  For decimals this is the bound on the exponent
+of the two roundings `(i as f64) / 10^k` with `i` a `u64` and `k ≤ 22` (`rneBits_lt`). -/
+theorem C11_f64_finite (s : Bytes) (v : Nat) (h : toF64 s = .ok v) : expField v ≠ 2047 := by
+  obtain ⟨neg, ip, fp, ha, hv⟩ := (toF64_ok_iff s v).1 h
+  subst hv
+  cases fp with
+  | none =>
+    have hle : decVal ip ≤ 2 ^ 53 - 1 := by obtain ⟨hd, -, -, -, hle⟩ := ha; exact hle
+    have := expField_u64ToF64_small (decVal ip) (by omega)
+    simp only [f64Value, intVal]
+    cases neg
+    · simp only [Bool.false_eq_true, if_false]; omega
+    · by_cases h0 : decVal ip = 0
+      · simp only [h0, if_true]; decide
+      · simp only [h0, if_false, if_true]; omega
+  | some f =>
+    obtain ⟨hd, -, -, -, -, hk, hle⟩ := ha
+    have := expField_fracVal neg (decVal (ip ++ f)) f.length hle hk
+    simp only [f64Value]; omega
+
+example : ∃ v, toF64 [46, 53] = .ok v := ⟨_, rfl⟩
+
 /-
-C11_f64_finite, full statement (the fraction case is NOT proved yet, see the partial
-theorem below):
-
-  theorem C11_f64_finite (s : Bytes) (v : Nat) (h : toF64 s = .ok v) : expField v ≠ 2047
-
-Missing: a bound on the exponent field of `rneBits num den` for `num ≤ 2^65`, `1 ≤ den ≤ 10^22`
-(needs `q < 2^53` after normalisation in `rneBits`, i.e. the floor-division bounds on
-`scaleQ`).  The clause is covered for all generated inputs by the correspondence run and
-the harness oracle `f64-nonfinite`.
-
 C11_f64_two_ulp, full statement (NOT proved; growth theorem of DESIGN.md):
 
   theorem C11_f64_two_ulp (s : Bytes) (neg : Bool) (ip f : Bytes)
@@ -306,20 +319,9 @@ C11_f64_two_ulp, full statement (NOT proved; growth theorem of DESIGN.md):
 
 covered by the correspondence run (the model computes the exact two-rounding result) and by
 the harness oracle `f64-beyond-2ulp` against Rust's correctly rounded `str::parse::<f64>`.
+Missing: the relative-error analysis of two successive roundings (needs `rneBits` within
+half an ulp of the exact quotient, then the composition).
 -/
-
-/-- **never NaN or infinity — proved for strings without a decimal point**: the exponent
-field of an accepted integer is at most 1075 (|value| < 2^53), so it is never 2047. -/
-theorem C11_f64_finite_partial (s : Bytes) (v : Nat) (hdot : 46 ∉ s) (h : toF64 s = .ok v) :
-    expField v ≠ 2047 := by
-  obtain ⟨neg, ip, -, hle, hv, -⟩ := C11_f64_integers_exact_or_refused s v hdot h
-  have := expField_u64ToF64_small (decVal ip) (by omega)
-  subst hv
-  cases neg
-  · simp only [Bool.false_eq_true, if_false]; omega
-  · by_cases h0 : decVal ip = 0
-    · simp only [h0, if_true]; decide
-    · simp only [h0, if_false, if_true]; omega
 
 example : toF64 [45, 49, 50] = .ok 0xC028000000000000 := by rfl   -- "-12" = -12.0
 
